@@ -1,0 +1,174 @@
+//! Verification hooks for the component `worker` of /verif (worker-side task state machine).
+//!
+//! `VerifWorker2` is built exactly like `verif::worker::VerifWorker` (same production constructor,
+//! same `process_worker_message`, same `handle_task_future` spawned on the current `LocalSet`) and
+//! additionally *reads* what the stand-alone worker correspondence needs:
+//!   * the iteration order of `prefilled_tasks` / `blocked_requests` (hash order = a choice of the run),
+//!   * the answers of the real allocator to `is_enabled` (read-only query),
+//!   * the identity (`Weak`) of the allocation held by every running task,
+//!   * the allocator snapshot (conservation monitor).
+//! It contains no logic that the production build uses.
+use std::rc::{Rc, Weak};
+use std::time::Duration;
+
+use bytes::Bytes;
+use tokio::sync::mpsc::{UnboundedReceiver, unbounded_channel};
+
+use crate::internal::common::resources::map::ResourceIdMap;
+use crate::internal::messages::worker::{
+    FromWorkerMessage, ToWorkerMessage, WorkerRegistrationResponse,
+};
+use crate::internal::transfer::auth::deserialize;
+use crate::internal::worker::comm::WorkerComm;
+use crate::internal::worker::configuration::{WorkerConfiguration, sync_worker_configuration};
+use crate::internal::worker::rpc::{process_worker_message, verif_retract_check_process};
+use crate::internal::worker::state::WorkerStateRef;
+use crate::launcher::TaskLauncher;
+use crate::resources::{Allocation, ResourceRqId};
+use crate::{InstanceId, ResourceVariantId, TaskId, WorkerId};
+
+pub struct VerifWorker2 {
+    state_ref: WorkerStateRef,
+    receiver: UnboundedReceiver<Bytes>,
+    pub worker_id: WorkerId,
+}
+
+#[derive(Debug, Clone)]
+pub struct VerifRunningTask2 {
+    pub task_id: TaskId,
+    pub instance_id: InstanceId,
+    pub resource_rq_id: ResourceRqId,
+    pub rv_id: ResourceVariantId,
+    pub time_limit: Option<Duration>,
+    /// identity of the `Rc<Allocation>` held by the running task (does not keep it alive)
+    pub allocation: Weak<Allocation>,
+    /// (resource id, total amount in fractions)
+    pub amounts: Vec<(u32, u64)>,
+}
+
+#[derive(Debug, Clone, Default)]
+pub struct VerifWorkerSnapshot2 {
+    /// sorted by task id
+    pub running: Vec<VerifRunningTask2>,
+    /// `prefilled_tasks` in the iteration order of the map, including keys with an empty vector;
+    /// the vectors in stack order (last element is started first)
+    pub prefilled: Vec<(ResourceRqId, Vec<(TaskId, InstanceId)>)>,
+    /// `blocked_requests` in the iteration order of the set
+    pub blocked: Vec<(ResourceRqId, ResourceVariantId)>,
+    /// number of registered request classes
+    pub n_requests: usize,
+}
+
+impl VerifWorker2 {
+    /// Mirrors the state construction in `run_worker` (same as `VerifWorker::new`).
+    pub fn new(
+        mut configuration: WorkerConfiguration,
+        registration: WorkerRegistrationResponse,
+        launcher: Box<dyn TaskLauncher>,
+    ) -> Self {
+        let WorkerRegistrationResponse {
+            worker_id,
+            other_workers,
+            resource_names,
+            resource_rq_map,
+            server_idle_timeout,
+            server_uid,
+            worker_overview_interval_override,
+        } = registration;
+        let (queue_sender, queue_receiver) = unbounded_channel::<Bytes>();
+        sync_worker_configuration(&mut configuration, server_idle_timeout);
+        let comm = WorkerComm::new(queue_sender);
+        let state_ref = WorkerStateRef::new(
+            comm,
+            worker_id,
+            configuration,
+            ResourceIdMap::from_vec(resource_names),
+            resource_rq_map,
+            launcher,
+            server_uid,
+        );
+        {
+            let mut state = state_ref.get_mut();
+            state.worker_overview_interval_override = worker_overview_interval_override;
+            for worker_info in other_workers {
+                state.new_worker(worker_info);
+            }
+        }
+        VerifWorker2 {
+            state_ref,
+            receiver: queue_receiver,
+            worker_id,
+        }
+    }
+
+    /// One iteration of `worker_message_loop`; returns true when the worker was told to stop.
+    pub fn process(&self, message: ToWorkerMessage) -> bool {
+        let mut state = self.state_ref.get_mut();
+        process_worker_message(&mut state, message)
+    }
+
+    /// Spawns the production `retract_check_process` on the current `LocalSet`.
+    pub fn spawn_retract_check(&self, interval: Duration) {
+        tokio::task::spawn_local(verif_retract_check_process(interval, self.state_ref.clone()));
+    }
+
+    /// Messages the worker queued for the server since the last call, in send order.
+    pub fn drain_messages(&mut self) -> Vec<FromWorkerMessage> {
+        let mut result = Vec::new();
+        while let Ok(data) = self.receiver.try_recv() {
+            result.push(deserialize(&data).expect("verif: cannot deserialize FromWorkerMessage"));
+        }
+        result
+    }
+
+    pub fn snapshot(&self) -> VerifWorkerSnapshot2 {
+        let state = self.state_ref.get();
+        let mut running: Vec<VerifRunningTask2> = state
+            .running_tasks
+            .values()
+            .map(|rt| VerifRunningTask2 {
+                task_id: rt.task.id,
+                instance_id: rt.task.instance_id,
+                resource_rq_id: rt.task.resource_rq_id,
+                rv_id: rt.rv_id,
+                time_limit: rt.task.time_limit,
+                allocation: Rc::downgrade(&rt.allocation),
+                amounts: rt
+                    .allocation
+                    .resources
+                    .iter()
+                    .map(|ra| (ra.resource_id.as_num(), ra.amount.total_fractions()))
+                    .collect(),
+            })
+            .collect();
+        running.sort_by_key(|r| r.task_id);
+        let prefilled = state
+            .prefilled_tasks
+            .iter()
+            .map(|(rq, ts)| (*rq, ts.iter().map(|t| (t.id, t.instance_id)).collect()))
+            .collect();
+        let blocked = state.blocked_requests.iter().copied().collect();
+        VerifWorkerSnapshot2 {
+            running,
+            prefilled,
+            blocked,
+            n_requests: state.resource_rq_map.size(),
+        }
+    }
+
+    /// The answer of the real allocator to `is_enabled` for a registered (request, variant);
+    /// `None` when the request class or the variant is not registered.
+    pub fn is_enabled(&self, rq_id: ResourceRqId, rv_id: ResourceVariantId) -> Option<bool> {
+        let state = self.state_ref.get();
+        if rq_id.as_usize() >= state.resource_rq_map.size() {
+            return None;
+        }
+        let rqv = state.resource_rq_map.get(rq_id);
+        let rq = rqv.requests().get(rv_id.as_usize())?;
+        Some(state.allocator.is_enabled(rq))
+    }
+
+    pub fn allocator_snapshot(&self) -> crate::verif::alloc::AllocatorSnapshot {
+        self.state_ref.get().allocator.verif_snapshot()
+    }
+}
